@@ -734,6 +734,45 @@ class FieldLoad:
         return 'load of ' + self.name
 
 
+class ByteLoad:
+    """nth byte load (program order) whose address is rooted at parameter `param` (a parser reading its input buffer);
+    widened=True selects the zext/sext of that load (the integer variable it initialises) instead of the i8 value"""
+    def __init__(self, param, nth, name=None, widened=False):
+        self.param, self.nth, self.name, self.widened = param, nth, name or 'byte #%d' % nth, widened
+
+    def sites(self, U, fname):
+        F = U.func(fname)
+        ls = []
+        for i in F.insts.values():
+            if i['op'] == 'load' and i['ty'] == 'i8':
+                if self._rooted(F, i['ops'][0], set()):
+                    ls.append(i)
+        ls.sort(key=lambda i: F.order[i['id']])
+        if self.nth >= len(ls):
+            return []
+        i = ls[self.nth]
+        if self.widened:
+            us = [u for u in F.insts.values() if u['op'] in ('zext', 'sext') and u['ops'][0] == {'k': 'i', 'v': i['id']}]
+            if len(us) != 1:
+                return []
+            i = us[0]
+        return [('load %s' % self.name, i)]
+
+    def _rooted(self, F, o, seen):
+        """address derives from the parameter through GEPs / casts / advancing-pointer phis only"""
+        b, _ = F.addr_of(o)
+        if b == {'k': 'a', 'v': self.param}:
+            return True
+        if b['k'] == 'i' and F.insts[b['v']]['op'] == 'phi' and b['v'] not in seen:
+            seen.add(b['v'])
+            ops = [q for q in F.insts[b['v']]['ops'] if q['k'] in ('i', 'a')]
+            return bool(ops) and all(self._rooted(F, q, seen) or (F.addr_of(q)[0] == b) for q in ops)
+        return False
+
+    def __str__(self):
+        return 'load of ' + self.name
+
+
 class LocalLoad:
     """loads of the local variable `var` (an alloca that survives mem2reg because its address is taken)"""
     together = True
